@@ -25,7 +25,7 @@ variable {F : Type} (fo : FloatOps F) (host : Host F)
 /-- `l && r`, the left operand false: `$!` after one step from the `And`, `r`'s code (at `tb`) lies ahead of both -/
 theorem C10_and_decides {P : Prog F} {bodies : List (Nat × Expr F)} (env : Env P bodies) (fwd : BranchFwd P)
     {root cur pc entry : Nat} {l r : Expr F}
-    (hloc : Located P root cur pc (.and l r)) (hwf : wfC (.and l r) = true) (hen : root = cur ∨ enFree (.and l r) = true)
+    (hloc : Located P root cur pc (.and l r)) (hwf : wfC (.and l r) = true)
     (hj : P.jumps[cur]? = some entry) (hent : entry < P.instrs.size)
     {fuel : Nat} {st st1 : St F} {vl : Val F}
     (hl : evalFS fo host bodies cur fuel l st = .ok (.val vl, st1)) (hf : vl.truthy = false)
@@ -38,12 +38,10 @@ theorem C10_and_decides {P : Prog F} {bodies : List (Nat × Expr F)} (env : Env 
   simp only [Located] at hloc
   obtain ⟨hll, j, join, tb, hi1, hjj, _, _, hlr, hterm⟩ := hloc
   simp only [wfC, Bool.and_eq_true] at hwf
-  have hen' : root = cur ∨ enFree l = true :=
-    hen.imp id (fun h => by simp only [enFree, Bool.and_eq_true] at h; exact h.1)
   obtain ⟨t, ht, hlt1, hle, _⟩ := fwd (pc + len l) .and j hi1 rfl
   rw [hjj] at ht
   cases ht
-  have hreach := ((sim_all fo host env fuel).1 l cur st (.val vl) st1 hl root pc rs vs fr entry hll hwf.1.1 hen' hj hent
+  have hreach := ((sim_all fo host env fuel).1 l cur st (.val vl) st1 hl root pc rs vs fr entry hll hwf.1 hj hent
     (lt_size_of_get hi1))
   rw [termsAfter_tis] at hterm
   simp only [InstrsAt, and_true] at hterm
@@ -56,7 +54,7 @@ theorem C10_and_decides {P : Prog F} {bodies : List (Nat × Expr F)} (env : Env 
 /-- `l || r`, the left operand true: `$?` after one step from the `Or`, `r`'s code lies ahead -/
 theorem C10_or_decides {P : Prog F} {bodies : List (Nat × Expr F)} (env : Env P bodies) (fwd : BranchFwd P)
     {root cur pc entry : Nat} {l r : Expr F}
-    (hloc : Located P root cur pc (.or l r)) (hwf : wfC (.or l r) = true) (hen : root = cur ∨ enFree (.or l r) = true)
+    (hloc : Located P root cur pc (.or l r)) (hwf : wfC (.or l r) = true)
     (hj : P.jumps[cur]? = some entry) (hent : entry < P.instrs.size)
     {fuel : Nat} {st st1 : St F} {vl : Val F}
     (hl : evalFS fo host bodies cur fuel l st = .ok (.val vl, st1)) (hf : vl.truthy = true)
@@ -69,12 +67,10 @@ theorem C10_or_decides {P : Prog F} {bodies : List (Nat × Expr F)} (env : Env P
   simp only [Located] at hloc
   obtain ⟨hll, j, join, tb, hi1, hjj, _, _, hlr, hterm⟩ := hloc
   simp only [wfC, Bool.and_eq_true] at hwf
-  have hen' : root = cur ∨ enFree l = true :=
-    hen.imp id (fun h => by simp only [enFree, Bool.and_eq_true] at h; exact h.1)
   obtain ⟨t, ht, hlt1, hle, _⟩ := fwd (pc + len l) .or j hi1 rfl
   rw [hjj] at ht
   cases ht
-  have hreach := ((sim_all fo host env fuel).1 l cur st (.val vl) st1 hl root pc rs vs fr entry hll hwf.1.1 hen' hj hent
+  have hreach := ((sim_all fo host env fuel).1 l cur st (.val vl) st1 hl root pc rs vs fr entry hll hwf.1 hj hent
     (lt_size_of_get hi1))
   rw [termsAfter_tis] at hterm
   simp only [InstrsAt, and_true] at hterm
@@ -89,7 +85,6 @@ complete at `pc + len c + 2` — two steps, all three addresses before `t`'s cod
 theorem C10_cond_skips {P : Prog F} {bodies : List (Nat × Expr F)} (env : Env P bodies) (fwd : BranchFwd P)
     {root cur pc entry : Nat} {onTrue : Bool} {c t : Expr F}
     (hloc : Located P root cur pc (.cond onTrue c t)) (hwf : wfC (.cond onTrue c t) = true)
-    (hen : root = cur ∨ enFree (.cond onTrue c t) = true)
     (hj : P.jumps[cur]? = some entry) (hent : entry < P.instrs.size) (hlt : pc + len (.cond onTrue c t) < P.instrs.size)
     {fuel : Nat} {st st1 : St F} {vc : Val F}
     (hc : evalFS fo host bodies cur fuel c st = .ok (.val vc, st1)) (hf : (vc.truthy == onTrue) = false)
@@ -104,8 +99,6 @@ theorem C10_cond_skips {P : Prog F} {bodies : List (Nat × Expr F)} (env : Env P
   simp only [Located] at hloc
   obtain ⟨hlc, j, join, tb, hi1, hi2, hjj, _, _, hlt', hterm⟩ := hloc
   simp only [wfC, Bool.and_eq_true] at hwf
-  have hen' : root = cur ∨ enFree c = true :=
-    hen.imp id (fun h => by simp only [enFree, Bool.and_eq_true] at h; exact h.1)
   have hbr : isBranch (jumpIf onTrue) = true := isBranch_jumpIf onTrue
   obtain ⟨t', ht, hlt1, hle, hpv⟩ := fwd (pc + len c) (jumpIf onTrue) j hi1 hbr
   rw [hjj] at ht
@@ -113,7 +106,7 @@ theorem C10_cond_skips {P : Prog F} {bodies : List (Nat × Expr F)} (env : Env P
   have hlt2 := hpv hi2
   have hend : pc + len (.cond onTrue c t) = pc + len c + 2 := by simp only [len]; omega
   rw [hend] at hlt
-  have hreach := ((sim_all fo host env fuel).1 c cur st (.val vc) st1 hc root pc rs vs fr entry hlc hwf.1.1 hen' hj hent
+  have hreach := ((sim_all fo host env fuel).1 c cur st (.val vc) st1 hc root pc rs vs fr entry hlc hwf.1 hj hent
     (lt_size_of_get hi1))
   rw [termsAfter_jump] at hterm
   simp only [InstrsAt, and_true] at hterm
@@ -154,7 +147,7 @@ theorem C10_short_circuit_in_context (p : Program F) (hwf : C01.WFProgramC p) {i
           step fo host (compile p) ⟨pc + len l, vl :: rs, st1.inp :: vs, fr, st1.trace⟩ =
             .running ⟨pc + len l + 1, .fls :: rs, st1.inp :: vs, fr, st1.trace⟩ := by
   have env := C01.compile_env p hwf
-  obtain ⟨root, pc, hloc, hw, hen, _⟩ := Located_sub hs (Occ.ofEnv env hb)
+  obtain ⟨root, pc, hloc, hw, _⟩ := Located_sub hs (Occ.ofEnv env hb)
   obtain ⟨entry, hj, hent⟩ := body_entry p hwf hb
   have hloc' := hloc
   simp only [Located] at hloc'
@@ -163,7 +156,7 @@ theorem C10_short_circuit_in_context (p : Program F) (hwf : C01.WFProgramC p) {i
   rw [hjj] at ht; cases ht
   refine ⟨root, pc, j, tb, hloc, hi1, hjj, hlr, hlt1, fun fuel st st1 vl hl hf rs vs fr => ?_⟩
   obtain ⟨j', tb', hi1', _, _, hreach, hstep, _⟩ :=
-    C10_and_decides fo host env (compile_fwd p hwf) hloc hw hen hj hent hl hf rs vs fr
+    C10_and_decides fo host env (compile_fwd p hwf) hloc hw hj hent hl hf rs vs fr
   exact ⟨hreach, hstep⟩
 
 /-- **C10 in context, `||`**: the same for `l || r` with a true left operand (`$?` is pushed) -/
@@ -179,7 +172,7 @@ theorem C10_short_circuit_in_context_or (p : Program F) (hwf : C01.WFProgramC p)
           step fo host (compile p) ⟨pc + len l, vl :: rs, st1.inp :: vs, fr, st1.trace⟩ =
             .running ⟨pc + len l + 1, .tru :: rs, st1.inp :: vs, fr, st1.trace⟩ := by
   have env := C01.compile_env p hwf
-  obtain ⟨root, pc, hloc, hw, hen, _⟩ := Located_sub hs (Occ.ofEnv env hb)
+  obtain ⟨root, pc, hloc, hw, _⟩ := Located_sub hs (Occ.ofEnv env hb)
   obtain ⟨entry, hj, hent⟩ := body_entry p hwf hb
   have hloc' := hloc
   simp only [Located] at hloc'
@@ -188,7 +181,7 @@ theorem C10_short_circuit_in_context_or (p : Program F) (hwf : C01.WFProgramC p)
   rw [hjj] at ht; cases ht
   refine ⟨root, pc, j, tb, hloc, hi1, hjj, hlr, hlt1, fun fuel st st1 vl hl hf rs vs fr => ?_⟩
   obtain ⟨j', tb', hi1', _, _, hreach, hstep, _⟩ :=
-    C10_or_decides fo host env (compile_fwd p hwf) hloc hw hen hj hent hl hf rs vs fr
+    C10_or_decides fo host env (compile_fwd p hwf) hloc hw hj hent hl hf rs vs fr
   exact ⟨hreach, hstep⟩
 
 /-- **C10 in context, conditionals**: for `c ?> t` / `c !> t` occurring anywhere (not as an arm of an else-chain: those
@@ -209,7 +202,7 @@ theorem C10_cond_in_context (p : Program F) (hwf : C01.WFProgramC p) {id : Nat} 
           step fo host (compile p) ⟨pc + len c + 1, rs, st1.inp :: vs, fr, st1.trace⟩ =
             .running ⟨pc + len c + 2, st1.inp :: rs, st1.inp :: vs, fr, st1.trace⟩ := by
   have env := C01.compile_env p hwf
-  obtain ⟨root, pc, hloc, hw, hen, hlt⟩ := Located_sub hs (Occ.ofEnv env hb)
+  obtain ⟨root, pc, hloc, hw, hlt⟩ := Located_sub hs (Occ.ofEnv env hb)
   obtain ⟨entry, hj, hent⟩ := body_entry p hwf hb
   have hloc' := hloc
   simp only [Located] at hloc'
@@ -218,7 +211,7 @@ theorem C10_cond_in_context (p : Program F) (hwf : C01.WFProgramC p) {id : Nat} 
   rw [hjj] at ht; cases ht
   refine ⟨root, pc, j, tb, hloc, hi1, hjj, hlt', hpv hi2, fun fuel st st1 vc hc hf rs vs fr => ?_⟩
   obtain ⟨j', tb', _, _, _, hreach, hstep1, hstep2, _⟩ :=
-    C10_cond_skips fo host env (compile_fwd p hwf) hloc hw hen hj hent hlt hc hf rs vs fr
+    C10_cond_skips fo host env (compile_fwd p hwf) hloc hw hj hent hlt hc hf rs vs fr
   exact ⟨hreach, hstep1, hstep2⟩
 
 /-! ### non-vacuity: `&&` inside the arm of a conditional inside a list -/
